@@ -42,7 +42,7 @@ def main():
             override = os.path.join(staging, n, "checks.txt")
             if os.path.exists(override) and not use_all:
                 checks = open(override).read().strip()
-            p = subprocess.run([sys.executable, os.path.join(os.path.dirname(__file__), "seed_eval.py"), os.path.join(staging, n), "--repo", wt, "--checks", checks],
+            p = subprocess.run([sys.executable, os.path.join(os.path.dirname(__file__), "seed_eval.py"), os.path.join(staging, n), "--repo", wt, "--checks", checks] + (["--until-caught"] if "--until-caught" in sys.argv else []),
                                capture_output=True, text=True)
             with lock:
                 print(n, p.stdout.strip().splitlines()[-1] if p.stdout.strip() else p.stderr[-300:], flush=True)
